@@ -15,7 +15,5 @@ nontrivial = kcommon.nontrivial
 
 
 def oracle(lines, trace):
-    bad, ok = kcommon.oracle_common(lines, trace)
-    if bad and bad[0].startswith(("timer/", "clock/backwards", "handler/", "crash", "trace/")):
-        return bad
-    return None
+    fails, ok = kcommon.oracle_common(lines, trace)
+    return [f for f in fails if f[0].startswith(("timer/", "clock/backwards", "handler/", "crash", "trace/"))]
